@@ -100,7 +100,15 @@ fn syn_test(h: &c05::History, obs: &mut Obs) -> CheckResult {
     let mut highest = 0u8;
     let mut probed = [false; 256];
     let mut leading_gap = false;
+    // rounds attributed to each registered flow, observed through the flows' round counters
+    let mut flow_rounds: std::collections::BTreeMap<u64, Vec<usize>> = std::collections::BTreeMap::new();
     let mut after = |k: usize, b: &c05::BuiltRound, state: &trippy_core::State| -> CheckResult {
+        for (_, id) in state.flows() {
+            let e = flow_rounds.entry(id.0).or_default();
+            if state.round_count(*id) > e.len() {
+                e.push(k);
+            }
+        }
         for p in &b.probes {
             let ttl = match p {
                 trippy_core::ProbeStatus::Awaited(a) => Some(a.ttl.0),
@@ -143,7 +151,43 @@ fn syn_test(h: &c05::History, obs: &mut Obs) -> CheckResult {
             Err(p) => vfail!(panic_sig(&p), "querying a fresh hop table panicked: {p}"),
         }
     }
-    c05::apply_history(h, &mut after)?;
+    let (state, built) = c05::apply_history(h, &mut after)?;
+    // the per-flow tables (what the flows view and the flows report show) obey the same rule over
+    // the rounds attributed to the flow
+    for (_, id) in state.flows() {
+        let rounds: Vec<&c05::BuiltRound> = flow_rounds.get(&id.0).map(|v| v.iter().map(|k| &built[*k]).collect()).unwrap_or_default();
+        let (mut lo, mut hi, mut seen) = (0u8, 0u8, [false; 256]);
+        for b in &rounds {
+            for p in &b.probes {
+                let ttl = match p {
+                    trippy_core::ProbeStatus::Awaited(a) => Some(a.ttl.0),
+                    trippy_core::ProbeStatus::Complete(a) => Some(a.ttl.0),
+                    trippy_core::ProbeStatus::Failed(a) => Some(a.ttl.0),
+                    _ => None,
+                };
+                if let Some(t) = ttl {
+                    seen[usize::from(t)] = true;
+                    lo = if lo == 0 { t } else { lo.min(t) };
+                }
+            }
+            hi = hi.max(b.largest_ttl);
+        }
+        let expect: Vec<u8> = if lo == 0 || hi == 0 { vec![] } else { (lo..=hi).map(|t| if seen[usize::from(t)] { t } else { 0 }).collect() };
+        let got: Vec<u8> = match catch(|| state.hops_for_flow(*id).iter().map(trippy_core::Hop::ttl).collect::<Vec<u8>>()) {
+            Ok(v) => v,
+            Err(p) => vfail!(panic_sig(&p), "hops_for_flow({}) panicked: {p}", id.0),
+        };
+        vensure!(got == expect, "flow-hop-run", "flow {}: hops_for_flow carries ttls {got:?}, the rounds attributed to it {:?} give the run {lo}..={hi} = {expect:?}", id.0, flow_rounds.get(&id.0));
+        if let Some(last) = rounds.last() {
+            if last.largest_ttl > 0 {
+                let t = catch(|| state.target_hop(*id).ttl()).map_err(|p| Fail::new(panic_sig(&p), format!("target_hop({}) panicked: {p}", id.0)))?;
+                vensure!(t == last.largest_ttl, "flow-target-hop", "flow {}: target_hop().ttl() = {t} but the latest round attributed to it reported path length {}", id.0, last.largest_ttl);
+            }
+        }
+        if rounds.len() >= 2 {
+            obs.class("flow-with-several-rounds");
+        }
+    }
     if h.rounds.len() >= 2 && highest > 0 {
         obs.class("nontrivial");
         if leading_gap {
@@ -162,7 +206,7 @@ pub fn check() -> PropertyCheck {
     PropertyCheck {
         id: "C10",
         level: "exploration",
-        rule: "table-e2e / table-faults: cases = (configuration, world[, 1..4 socket faults: failed sends, TCP address-in-use re-issues, late fatal errors]) by proptest, the table is read through the public State accessors after every published round; synthetic: generated round sequences (Complete / Awaited / Failed / Skipped entries in any position, first-ttl 1..254, reported path length 0 or a probed TTL) applied to State directly. Oracle = gap-free TTL run [lowest probed .. greatest path length], target hop = latest path length, true distance when a stable single path's target answered the ttl=distance probe, empty when nothing ever answered, no query panics (also on a fresh table). Non-trivial = >= 2 rounds with at least one answer (e2e), a Failed/Skipped entry in a published round (faults); distinct by (first-ttl, lowest, highest, per-round path lengths, #paths) / whole history",
+        rule: "table-e2e / table-faults: cases = (configuration, world[, 1..4 socket faults: failed sends, TCP address-in-use re-issues, late fatal errors]) by proptest, the table is read through the public State accessors after every published round; synthetic: generated round sequences (Complete / Awaited / Failed / Skipped entries in any position, first-ttl 1..254, reported path length 0 or a probed TTL) applied to State directly. Oracle = gap-free TTL run [lowest probed .. greatest path length], target hop = latest path length, true distance when a stable single path's target answered the ttl=distance probe, empty when nothing ever answered, no query panics (also on a fresh table); synthetic: the same run / target rule for every registered flow over the rounds attributed to it. Non-trivial = >= 2 rounds with at least one answer (e2e), a Failed/Skipped entry in a published round (faults); distinct by (first-ttl, lowest, highest, per-round path lengths, #paths) / whole history",
         assumptions: vec!["SimSocket models the socket layer", "synthetic rounds report 0 or a TTL probed in that round as path length, as the strategy does"],
         subs: vec![
             Box::new(Pbt {
